@@ -63,9 +63,10 @@ inline Plan Gen(uint64_t seed)
    {
       const int readers = 8 + (int) cr.below(3);
       p.push_back("cfg prop=C18 prefer=" + I(cfg.below(2)) + " threads=" + I(readers+2) + thrc::SchedCfgStr(cfg) + " poom=" + I(cr.oneIn(4) ? 0 : (50 + (int) cr.below(400))));
-      {std::string s = "prog 0 W"; const int ny = 6 + (int) cr.below(10); for (int i=0; i<ny; i++) s += " Y"; s += " w"; if (cr.oneIn(2)) s += " Y W Y w"; p.push_back(s);}
-      for (int t=1; t<=readers; t++) {std::string s = "prog " + I(t) + (cr.oneIn(4) ? " Y" : "") + " R" + (cr.oneIn(2) ? " Y" : "") + (cr.oneIn(6) ? " R r" : "") + " r"; p.push_back(s);}
-      {std::string s = "prog " + I(readers+1); const int ny = 4 + (int) cr.below(12); for (int i=0; i<ny; i++) s += " Y"; s += cr.oneIn(3) ? " DW100000 Y w" : " W Y w"; p.push_back(s);}
+      // (the writer opens a gate once it has the lock -- or has failed to get it -- and lets go only when every reader has queued up or failed; the readers hold on for a while)
+      {std::string s = "prog 0 W GO GP" + I(cr.oneIn(5) ? (int)(1 + cr.below((uint32_t) readers)) : readers) + " w"; if (!cr.oneIn(3)) s += std::string(cr.oneIn(2) ? " Y" : "") + " W Y w"; p.push_back(s);}
+      for (int t=1; t<=readers; t++) {std::string s = "prog " + I(t) + " GW R"; const int ny = 2 + (int) cr.below(10); for (int i=0; i<ny; i++) s += " Y"; s += " r"; p.push_back(s);}
+      {std::string s = "prog " + I(readers+1) + " GW"; const int ny = 2 + (int) cr.below(12); for (int i=0; i<ny; i++) s += " Y"; s += cr.oneIn(3) ? " DW100000 Y w" : " W Y w"; p.push_back(s);}
       return p;
    }
    p.push_back("cfg prop=C18 prefer=" + I(cfg.below(2)) + " threads=" + I(threads) + thrc::SchedCfgStr(cfg));
@@ -119,6 +120,7 @@ struct Ctx
 {
    ReaderWriterMutex * rw; bool prefer;
    volatile int done = 0;
+   int nprogs = 0; volatile bool gateOpen = false; volatile int failedAcquires = 0, failedAtGate = 0;
    // writer preference bookkeeping: order in which blocking acquires BEGAN (harness sequence numbers) and were granted
    uint64_t seq = 0;
    struct Waiting {int tid; bool write; uint64_t began; bool upgrade;}; std::vector<Waiting> waiting;
@@ -159,6 +161,7 @@ inline void RunProgram(Ctx & cx, int t, const std::vector<std::string> & ops, Ru
       }
       else
       {
+         cx.failedAcquires++;
          if ((oomHit)&&(r == B_OUT_OF_MEMORY)) res.stats.inc("p.acquire_failed_for_lack_of_memory");   // (legitimate: the lock must then be as it was, which the invariant and the rest of the run check)
          else if (!timed) thr::ReportAndExit("blocking_acquire_failed", std::string("an untimed ") + (write ? "LockReadWrite" : "LockReadOnly") + " returned " + r());
          res.stats.inc("p.timed_or_try_failed");
@@ -188,6 +191,14 @@ inline void RunProgram(Ctx & cx, int t, const std::vector<std::string> & ops, Ru
    for (const std::string & op : ops)
    {
       if (op == "Y") thr::Yield();
+      // gates (crowd runs): GO opens the gate; GW waits for it; GP<n>, for a thread that holds the write lock, waits until n acquires that began after the gate opened are either parked on the lock or have failed
+      else if (op == "GO") {cx.gateOpen = true; cx.failedAtGate = cx.failedAcquires;}
+      else if (op == "GW") thr::WaitUntil([&cx]() {return cx.gateOpen;});
+      else if ((op.size() > 2)&&(op[0] == 'G')&&(op[1] == 'P'))
+      {
+         const int n = (int) ToI(op.substr(2));
+         if (me.writes > 0) thr::WaitUntil([&cx, n]() {int parked = 0; for (auto & w : cx.waiting) if (thr::IsAsleep(w.tid)) parked++; return ((parked + (cx.failedAcquires - cx.failedAtGate)) >= n)||(parked + cx.done + 1 >= cx.nprogs);});   // (or nobody is left who could still queue up: keeps hand-edited and minimised plans from waiting for ever)
+      }
       else if (op == "R") Acquire(false, MUSCLE_TIME_NEVER);
       else if (op == "W") Acquire(true, MUSCLE_TIME_NEVER);
       else if (op == "TR") Acquire(false, 0);
@@ -215,7 +226,8 @@ inline void Exec(const Plan & plan, RunResult & res)
    thr::Begin(thrc::SchedCfgFrom(cfg));
    g_shadow.assign((size_t) maxT + 2, Shadow());   // index = scheduler thread id (main = 0, program k = k+1)
    thr::SetInvariant(Invariant);
-   int k = 0;
+   int k = 0; cx.nprogs = (int) progs.size();
+   {bool anyGo = false; for (auto & kv : progs) for (auto & o : kv.second) if (o == "GO") anyGo = true; if (!anyGo) cx.gateOpen = true;}   // (a plan without GO -- minimised, hand-edited -- has its gate open)
    for (auto & kv : progs) {const int tid = ++k; const std::vector<std::string> ops = kv.second; thr::Spawn([&cx, tid, ops, &res]() {RunProgram(cx, tid, ops, res);});}
    thr::WaitForAll();
    // afterwards an uncontended writer must succeed at once: no phantom entry may remain
